@@ -74,14 +74,14 @@ const c02Drive = `def drive(k):
 `
 
 type c02Gen struct {
-	g       *G
-	r       *Run
-	id      int
-	exits   int
-	maxExit int
-	crosses bool // an exit action sits inside a finally-protected / with / loop region
+	g        *G
+	r        *Run
+	id       int
+	exits    int
+	maxExit  int
+	crosses  bool // an exit action sits inside a finally-protected / with / loop region
 	maxDepth int
-	kinds   map[string]bool
+	kinds    map[string]bool
 }
 
 type c02Ctx struct {
